@@ -3,7 +3,7 @@ FRAGMENT = {
  'C07': { 'bin': 'w_c07',
  'world': 'c07',
  'level': 'exploration',
- 'quick': {'runs': 24000, 'budget_s': 28, 'workers': 16},
+ 'quick': {'runs': 60000, 'budget_s': 28, 'workers': 16},
  'thorough': {'runs': 2000000, 'budget_s': 600, 'workers': 16, 'det_sample': 200},
  'level_text': 'seeded exploration of PES and TS streams (encoder written from ISO 13818-1 / EN 300 472 / EN 301 775: frames of Teletext / VPS / WSS / caption lines, '
                'unknown-line Teletext units, frames split over PES packets, stuffing variants, reserved and monochrome data units, PES header variants, foreign '
